@@ -517,3 +517,13 @@ M("form2-310-no-truncation", "C07", L310, "        del stack[stack_validity_limi
 M("form2-310-limit-min", "C07", L310, "stack_validity_limit = max(blk.level for blk in details.blocks)", "stack_validity_limit = min(blk.level for blk in details.blocks)", "FORM-2")
 M("form2-310-limit-default-1", "C07", L310, "            stack_validity_limit = 0\n", "            stack_validity_limit = 1\n", "FORM-2")
 T("twin-form1-commuted", "C07", L311, "    end_offset = stack_start_offset + wordsize * co.co_stacksize", "    end_offset = co.co_stacksize * wordsize + stack_start_offset")
+
+# ---------------------------------------------------------------- VER-5
+M("ver5-co-qualname", "C01", TY, "        return self.pyframe.f_code.co_name\n", "        return self.pyframe.f_code.co_qualname\n", "VER-5")
+M("ver5-gi-suspended", "C01", GL, "        if gen.gi_running:\n            return StackSlice(outer=gen.gi_frame)", "        if not gen.gi_suspended:\n            return StackSlice(outer=gen.gi_frame)", ["VER-5"])
+M("ver5-positions", "C01", LL, "        if insn.starts_line is not None:\n            current_line = insn.starts_line", "        if insn.positions is not None and insn.starts_line is not None:\n            current_line = insn.starts_line", "VER-5")
+
+# ---------------------------------------------------------------- SIG-1
+M("sig1-glue-hook-one-param", "C11", GL, "    def unwrap_greenback_async_context(manager: Any, context: Context) -> Any:\n        return manager._cm", "    def unwrap_greenback_async_context(manager: Any) -> Any:\n        return manager._cm", "SIG-1")
+M("sig1-engine-call-one-arg", "C10", EX, "            replacement = elaborate_frame(frame, next_inner)", "            replacement = elaborate_frame(frame)", ["SIG-1"], accept_analysis_error=True)
+M("sig1-contextvars-hook", "C10", GL, "    @unwrap_stackitem.register(ANextIter)\n    def unwrap_async_generator_backport_next_iter(aw: Any) -> Any:", "    @unwrap_stackitem.register(ANextIter)\n    def unwrap_async_generator_backport_next_iter(aw: Any, ctx: Any) -> Any:", "SIG-1")
